@@ -146,6 +146,11 @@ def spec_call(ex, e, fr):
         else:
             q = z3.Exists(bvs, body)
         return vbool(q)
+    if name == "nrows":           # leading dimension of an array value whose contents are not modelled
+        v = ex.ev(e.args[0], fr)
+        if v.ty.kind != "oarr":
+            raise Unsupported("nrows of a non-array")
+        return vint(smt.oarr_rows(v.t))
     if name in ("comp_rank", "comp_src"):
         # position functions of a filtering comprehension `[x for x in S if C(x)]` held in a code variable:
         # comp_rank(L, i) = index in L of S[i] (for i with C(S[i])),  comp_src(L, t) = index in S of L[t]
